@@ -3,7 +3,8 @@
    sequences of the transition systems of WsClient/Model.v, i.e. over every schedule, reply order,
    drop point and cancellation point, with any number of callers. *)
 From Coq Require Import List NArith Lia Bool Arith.
-From FFS Require Import WsClient.Model WsClient.Spec WsClient.ProofsHttp.
+From FFS Require Import WsClient.Model WsClient.Spec WsClient.ProofsHttp WsClient.ProofsWsBase
+  WsClient.ProofsWsPairing WsClient.ProofsWsReconnect.
 Import ListNotations.
 
 (* 1. HTTP: with a limit configured, the number of requests outstanding at the backend never exceeds
@@ -44,3 +45,70 @@ Example C18_http_nonvacuous :
             /\ h_outstanding s = 1%nat /\ h_sent s = [2; 1]%N
             /\ h_pc s 0%nat = HDone {| ho_err := false; ho_id := 7; ho_res := Some 42%N; ho_code := 0 |}.
 Proof. eexists. split; [vm_compute; reflexivity|]. vm_compute. auto. Qed.
+
+(* 4. WebSocket: a delivery to caller k carries the frame whose id was allocated to k's request —
+      in the log of all deliveries, in k's response channel and in what CallRPC returns; ids are never
+      shared by two calls.  ([call_id (w_cpc w k)] is the id addInflightRequest allocated to k.) *)
+Theorem C18_ws_pairing :
+  forall evs w, wrun evs winit = Some w ->
+    (forall k fid e v, In (LDeliver k (RespFrame fid e v)) (w_log w) -> call_id (w_cpc w k) = Some fid) /\
+    (forall k fid e v, w_chan w k = Some (RespFrame fid e v) -> call_id (w_cpc w k) = Some fid) /\
+    (forall k, cout_ok (w_cpc w k)) /\
+    (forall k fid e v, In (LDeliver k (RespFrame fid e v)) (w_log w) ->
+        paired (fun c => call_id (w_cpc w c)) k (DReply fid)) /\
+    (forall k k' i, call_id (w_cpc w k) = Some i -> call_id (w_cpc w k') = Some i -> k = k').
+Proof. exact ws_pairing. Qed.
+Print Assumptions C18_ws_pairing.
+
+(* 4b. ... and frames with an unknown id, an unusable id, or the id of an already answered request are
+       dropped: they change nothing, now or at any later time. *)
+Theorem C18_ws_unknown_and_duplicate_dropped :
+  forall evs w, wrun evs winit = Some w ->
+    (forall i e v, w_rpc w = RIdle -> alookup i (w_calls w) = None -> alookup i (w_pend w) = None ->
+        wstep w (EFrame (FReply (Some i) e v)) = Some w) /\
+    (forall e v, w_rpc w = RIdle -> wstep w (EFrame (FReply None e v)) = Some w) /\
+    (forall i e v w1 evs2 w2,
+        wstep w (EFrame (FReply (Some i) e v)) = Some w1 ->
+        (alookup i (w_calls w) <> None \/ alookup i (w_pend w) <> None) ->
+        wrun evs2 w1 = Some w2 ->
+        alookup i (w_calls w2) = None /\ alookup i (w_pend w2) = None).
+Proof. exact ws_unknown_and_duplicate_dropped. Qed.
+Print Assumptions C18_ws_unknown_and_duplicate_dropped.
+
+(* 5. WebSocket: once handleReconnect (started by EClear in any reachable state) is past its delivery
+      loop, every call that was registered and unanswered before it has completed or has a response
+      in its capacity-1 channel (or is being handed one by the receive loop): none hangs.  Whatever
+      else happens in between, further reconnects included. *)
+Theorem C18_ws_reconnect_completes :
+  forall evs1 w1 w1' evs2 w2,
+    wrun evs1 winit = Some w1 -> wstep w1 EClear = Some w1' -> wrun evs2 w1' = Some w2 ->
+    (forall cs ss, w_hpc w2 <> HCalls cs ss) ->
+    forall k i, waiting_id (w_cpc w1 k) = Some i ->
+      (exists o, w_cpc w2 k = CGot i o \/ w_cpc w2 k = CDone i o) \/
+      (waiting_id (w_cpc w2 k) = Some i /\
+       (w_chan w2 k <> None \/ exists r, w_rpc w2 = RDeliver k r)).
+Proof. exact ws_reconnect_completes. Qed.
+Print Assumptions C18_ws_reconnect_completes.
+
+(* non-vacuity: two calls, replies in reverse order, a duplicate, then a third call caught by a
+   reconnect: it ends with the reconnect error in its channel (the hypotheses of theorems 4-5 hold of
+   this run; evaluated as one boolean so that no state has to be printed) *)
+Definition is_reconn (o : option resp) : bool := match o with Some RespReconn => true | _ => false end.
+Example C18_ws_nonvacuous :
+  match wrun [ECallReg 0; ECallSend 0 true; ECallReg 1; ECallSend 1 true;
+              EFrame (FReply (Some 2%N) false (Some 22%N)); ERDeliver; ECallRecv 1;
+              EFrame (FReply (Some 1%N) false (Some 11%N)); ERDeliver;
+              EFrame (FReply (Some 2%N) false (Some 99%N));
+              ECallReg 2; ECallSend 2 true] winit with
+  | Some w1 =>
+      match w_cpc w1 1%nat, w_chan w1 0%nat, waiting_id (w_cpc w1 2%nat), wstep w1 EClear with
+      | CGot 2%N (COk 2%N (Some 22%N)), Some (RespFrame 1%N false (Some 11%N)), Some 3%N, Some w1' =>
+          match wrun [ERcDeliver 2] w1' with
+          | Some w2 => match w_hpc w2 with HIdle => is_reconn (w_chan w2 2%nat) | _ => false end
+          | None => false
+          end
+      | _, _, _, _ => false
+      end
+  | None => false
+  end = true.
+Proof. vm_compute. reflexivity. Qed.
